@@ -209,6 +209,31 @@ def c_xml(e):
                                 "None" if text is None else "(Some %s)" % cs(text), clist(list(e), c_xml))
 
 
+def whole_picture(ds):
+    """everything a parsed dataset holds, groups included, in a comparable form"""
+    import numpy as np
+
+    def attrs(d):
+        return sorted((str(k), repr(v.tolist() if isinstance(v, np.ndarray) else v)) for k, v in dict(d).items())
+
+    def pic(v):
+        kids = list(v.children()) if hasattr(v, "children") else []
+        return (type(v).__name__, v.name, attrs(v.attributes), repr(getattr(v, "dims", None)), repr(getattr(v, "shape", None)),
+                repr(getattr(v, "dtype", None)), repr(getattr(v, "Maps", None)), repr(sorted(getattr(v, "dimensions", {}).items()))
+                if isinstance(getattr(v, "dimensions", None), dict) else repr(getattr(v, "dimensions", None)),
+                [pic(k) for k in kids])
+    groups = getattr(ds, "groups", None)
+    gpic = []
+    if callable(groups):
+        try:
+            groups = groups()
+        except Exception:  # noqa
+            groups = None
+    if isinstance(groups, dict):
+        gpic = sorted((str(k), repr(v)) for k, v in groups.items())
+    return (pic(ds), gpic)
+
+
 def observe(ds, fq, ty):
     """(name, tag, shape, dims, maps, path, [(attr, count)]) of the parsed variable addressed by its group path"""
     import numpy as np
@@ -248,6 +273,7 @@ def main():
     from pydap.responses.dmr import dmr as dmr_response
 
     direct, cases = [], []
+    previous_doc = None
     stats = {"documents": 0, "variables": 0, "groups_depth": {}, "mixed_dims": 0, "repeated_short_names": 0, "broken_refs": 0,
              "attributes": 0, "served": 0}
 
@@ -286,6 +312,21 @@ def main():
             continue
         observed = []
         problems = []
+        # parsing is a function of the text: the same document parsed again (other documents in between) gives the same dataset,
+        # groups with their attributes and dimension tables included
+        try:
+            again = dmr_to_dataset(text)
+            if whole_picture(again) != whole_picture(ds):
+                problems.append(("<dataset>", "second parse of the same text differs", repr(whole_picture(again))[:200], repr(whole_picture(ds))[:200]))
+        except Exception as e:  # noqa
+            problems.append(("<dataset>", "second parse of the same text raises", repr(e)[:150], ""))
+        if previous_doc is not None and rng.random() < 0.5:
+            try:
+                if whole_picture(dmr_to_dataset(previous_doc[0])) != previous_doc[1]:
+                    problems.append(("<dataset>", "an earlier document parsed again differs", "", ""))
+            except Exception as e:  # noqa
+                problems.append(("<dataset>", "an earlier document parsed again raises", repr(e)[:150], ""))
+        previous_doc = (text, whole_picture(ds))
         for fq, ty, shape, dims, maps, path, attrs in exp:
             try:
                 o = observe(ds, fq, ty)
